@@ -10,10 +10,13 @@ package main
 // The binary is built with -race; a race report makes the worker exit and is logged as a Crash event.
 
 import (
+	"bytes"
 	"context"
 	"encoding/json"
+	stdh "net/http"
 	"fmt"
 	"math/rand"
+	"runtime"
 	"sync"
 
 	"github.com/cloudwego/dynamicgo/conv"
@@ -21,6 +24,7 @@ import (
 	"github.com/cloudwego/dynamicgo/conv/j2t"
 	"github.com/cloudwego/dynamicgo/conv/p2j"
 	"github.com/cloudwego/dynamicgo/conv/t2j"
+	dhttp "github.com/cloudwego/dynamicgo/http"
 	dproto "github.com/cloudwego/dynamicgo/proto"
 	pgen "github.com/cloudwego/dynamicgo/proto/generic"
 	"github.com/cloudwego/dynamicgo/thrift"
@@ -114,6 +118,7 @@ func newThriftFix(r *rand.Rand) *fix12 {
 			return []byte("nil"), nil
 		}},
 	}
+	fx.ops = append(fx.ops, newHTTPOp())
 	fx.descDump = func() string {
 		dd := DescJ{Structs: map[string][]FldJ{}}
 		dd.From = dumpTy(root, dd.Structs)
@@ -197,6 +202,40 @@ func newProtoFixEnv(r *rand.Rand) protoFixEnv {
 	}
 }
 
+// newHTTPOp: j2t with EnableHttpMapping + ReadHttpValueFallback on a struct with http-mapped fields; an input is a
+// JSON document {"body": <json body>, "query": <raw query>}; input 2 misses a required field everywhere (fails at the
+// end of the struct, after other fields have been matched)
+func newHTTPOp() *op12 {
+	idl := "namespace go hm\nstruct R {\n  1: required string q (api.query = \"q\")\n  2: optional i32 n (api.query = \"n\")\n  3: optional string plain\n  4: required i64 need (api.header = \"x-need\")\n  5: optional string o5 (api.query = \"o5\")\n}\nservice S { R M(1: R r) }\n"
+	svc, err := thrift.NewDescritorFromContent(context.Background(), "hm12.thrift", idl, nil, true)
+	if err != nil {
+		die("http idl: %v", err)
+	}
+	fn, _ := svc.LookupFunctionByMethod("M")
+	desc := fn.Request().Struct().FieldById(1).Type()
+	mk := func(body, query, need string) []byte {
+		b, _ := json.Marshal(map[string]string{"body": body, "query": query, "need": need})
+		return b
+	}
+	cv := j2t.NewBinaryConv(conv.Options{EnableHttpMapping: true, ReadHttpValueFallback: true})
+	return &op12{name: "j2t.http", isErr: []bool{false, false, true, false},
+		inputs: [][]byte{mk(`{"plain":"a"}`, "q=1&n=7", "5"), mk(`{"plain":"bb","q":"from-body"}`, "n=8&o5=x", "6"), mk(`{"plain":"c","n":3}`, "o5=y", ""), mk(`{"plain":"dddd"}`, "q=zz&n=9&o5=w", "77")},
+		f: func(in []byte) ([]byte, error) {
+			var m map[string]string
+			json.Unmarshal(in, &m)
+			hr, _ := stdh.NewRequest("POST", "http://localhost/root?"+m["query"], bytes.NewReader([]byte(m["body"])))
+			hr.Header.Set("Content-Type", "application/json")
+			if m["need"] != "" {
+				hr.Header.Set("x-need", m["need"])
+			}
+			req, err := dhttp.NewHTTPRequestFromStdReq(hr)
+			if err != nil {
+				return nil, err
+			}
+			return cv.Do(context.WithValue(context.Background(), conv.CtxKeyHTTPRequest, req), desc, []byte(m["body"]))
+		}}
+}
+
 type held12 struct {
 	res  []byte // the slice handed out by the library
 	want []byte
@@ -227,22 +266,20 @@ func (c *c12) solo(fx *fix12) bool {
 	for _, o := range fx.ops {
 		o.want = make([][]byte, len(o.inputs))
 		for i := range o.inputs {
+			// "alone": whatever earlier calls left in the library's sync.Pools is dropped first (two GC cycles empty a pool)
+			runtime.GC()
+			runtime.GC()
 			res, st := call12(o, i)
-			exp := "ok"
-			if o.isErr[i] {
-				exp = "err"
-			}
-			// solo calls define the expected results; a wrong status here means the fixture is unusable
-			if st != exp && !(o.isErr[i] && st == "ok") {
-				ok = false
-			}
 			if st == "ok" {
 				o.want[i] = append([]byte(nil), res...)
-			} else {
-				o.isErr[i] = true
 			}
-			if o.isErr[i] && st == "ok" {
+			switch {
+			case o.isErr[i] && st == "ok":
 				o.isErr[i] = false // the mutilated input happens to be acceptable
+			case !o.isErr[i] && st != "ok":
+				// an input made to be good fails even when run alone: not a usable fixture (logged, not judged here)
+				c.out.Emit(map[string]interface{}{"ev": "Skip", "why": "fixture", "op": o.name, "input": i, "st": st})
+				ok = false
 			}
 		}
 	}
@@ -384,7 +421,6 @@ func c12Main(args map[string]string) {
 			fx = newProtoFix(r)
 		}
 		if !c.solo(fx) {
-			out.Emit(map[string]interface{}{"ev": "Skip", "why": "fixture"})
 			continue
 		}
 		// each history is replayed on a rotating pair of operations of this fixture
